@@ -143,6 +143,10 @@ func (h *handler) Handle(ctx context.Context, header *protocol.RequestHeader, re
 					continue
 				}
 				if err := h.ensureTopic(ctx, name, 0); err != nil {
+					if errors.Is(err, metadata.ErrInvalidTopic) {
+						// not a legal topic name: nothing is created, the lookup below answers for it
+						continue
+					}
 					return nil, fmt.Errorf("auto-create topic %s: %w", name, err)
 				}
 			}
@@ -1258,6 +1262,9 @@ func (h *handler) handleDeleteTopics(ctx context.Context, header *protocol.Reque
 func (h *handler) validateCreateTopic(ctx context.Context, topic kmsg.CreateTopicsRequestTopic) error {
 	if topic.Topic == "" || topic.NumPartitions <= 0 {
 		return metadata.ErrInvalidTopic
+	}
+	if err := metadata.ValidateTopicName(topic.Topic); err != nil {
+		return err
 	}
 	replicationFactor := topic.ReplicationFactor
 	if replicationFactor <= 0 {
